@@ -28,8 +28,9 @@ CONSTANTS
   HfpTTL,       \* [Disp -> Int]         configured hit-for-pass seconds (<= 0: default 300)
   Methods,      \* methods requests may use, e.g. {"GET"} or {"GET","POST"}
   TTLs,         \* lifetimes the origin may grant
-  Outcomes,     \* \subseteq {"cacheable","uncacheable","nilresp","error","timeout","panic"}  (timeout: the location's proxy timer fires)
-  LoadResults,  \* \subseteq {"ok","notfound","error","cut_s","cut_r","cut_c","badstatus"}
+  Outcomes,     \* \subseteq {"cacheable","uncacheable","nilresp","error","timeout","gone","panic"}  (timeout: the location's proxy
+                \* timer fires; gone: the client goes away while the origin is silent)
+  LoadResults,  \* \subseteq {"ok","notfound","error","cut_s","cut_r","cut_c","cut_m","badstatus"}  (cut_m: cut inside an integer field)
   SaveResults,  \* \subseteq {TRUE, FALSE}   store write succeeds / fails
   Jumps,        \* clock increments of a Tick
   MaxTicks, MaxStarts, MaxVer, MaxEnt, MaxPurges, MaxKills, MaxDrops,
@@ -219,7 +220,7 @@ Loaded(E, rec, res) ==
   ELSE IF LoadAtomic \/ rec = NoRec \/ res \in {"notfound", "error", "ok"} THEN E
   ELSE IF res = "cut_s" THEN [E EXCEPT !.status = rec.status]
   ELSE IF res = "cut_r" THEN [E EXCEPT !.status = rec.status, !.resp = rec.resp]
-  ELSE IF res = "cut_c" THEN [E EXCEPT !.status = rec.status, !.resp = rec.resp, !.createdAt = rec.createdAt]
+  ELSE IF res \in {"cut_c", "cut_m"} THEN [E EXCEPT !.status = rec.status, !.resp = rec.resp, !.createdAt = rec.createdAt]
   ELSE (* badstatus: a complete record whose status field reads `fetching` *)
        [E EXCEPT !.status = "fetching", !.resp = rec.resp, !.createdAt = rec.createdAt, !.expiredAt = rec.expiredAt]
 
@@ -419,7 +420,7 @@ Save(r, ok) ==
 (* the middleware returns *)
 End(r) ==
   LET lab == rst[r]
-      err == IF rout[r] \in {"error", "timeout", "panic", "nilresp"} THEN "upstream"
+      err == IF rout[r] \in {"error", "timeout", "gone", "panic", "nilresp"} THEN "upstream"
              ELSE IF lab = "hit" /\ rresp[r] = 0 THEN "own" ELSE "none"
       v == IF lab = "hit" THEN rresp[r] ELSE rver[r] IN
   /\ pc[r] = "end"
